@@ -96,6 +96,8 @@ pub fn mains() -> Vec<(&'static str, &'static str)> {
         ("no_path", "int pre = 1;\ninclude;\ninclude \"a.inc\";\n"),
         ("in_if_then_top", "if (true) { include \"a.inc\"; }\ninclude \"b.inc\";\nint s = vb;\n"),
         ("in_def_then_top", "def f() { include \"b.inc\"; }\ninclude \"a.inc\";\nint s = va;\n"),
+        ("stdgates_in_if", "if (true) { include \"stdgates.inc\"; }\nqubit q;\nint post = 1;\n"),
+        ("stdgates_in_def", "def f() { include \"stdgates.inc\"; }\nint post = 1;\n"),
         ("dot_stdgates", "include \"./stdgates.inc\";\nint post = 1;\n"),
         ("stdgates_mid", "include \"a.inc\";\ninclude \"stdgates.inc\";\ninclude \"b.inc\";\nint s = vb;\nqubit q;\nh q;\n"),
         ("annotated", "int pre = 1;\n@note one\n@second\ninclude \"a.inc\";\nint post = 2;\n"),
